@@ -40,6 +40,7 @@ def target (s : State) : Op → Target
   | .new _ _ _ => .fresh
   | .clone _ => .fresh
   | .upd i _ => .var i
+  | .updV i _ => .var i
   | .merge i _ => .var i
   | .add i =>
     match s.vars[i]? with
@@ -153,6 +154,17 @@ theorem step_ok {s s' : State} {op : Op} (hs : Sep s) (h : step s op = some s') 
       subst he
       exact ok_set_var hs hf
         (mutate_step (st' := r.1) (f' := r.2) hr (hs.valid2 f (List.mem_of_getElem? hf)))
+  | updV i m =>
+    simp only [step] at h
+    cases hf : s.vars[i]? with
+    | none => rw [hf] at h; cases h
+    | some f =>
+      rw [hf] at h
+      simp only [Option.map_eq_some_iff] at h
+      obtain ⟨r, hr, he⟩ := h
+      subst he
+      exact ok_set_var (s := s) hs hf
+        (mutateV_step (st' := r.1) (vals' := r.2.1) (f' := r.2.2) hr (hs.valid2 f (List.mem_of_getElem? hf)))
   | merge i j =>
     simp only [step] at h
     cases hf : s.vars[i]? with
@@ -397,6 +409,247 @@ example : ∃ s s1 s2, run {} [.new .area "a1" 2, .upd 0 (.setPathIDs 0 ["p10", 
     run s1 ([Mut.setPathID 0 1 "p11", .setTag "k" "w"].map (Op.upd 1)) = some s2 ∧
     (s1.vars[1]?.map (view s1.st)) = (s1.world[0]?.map (view s1.st)) := by
   refine ⟨_, _, _, rfl, rfl, rfl, by decide⟩
+
+/-! ## the third level: tag values that are lists (`b6.Expressions`)
+
+`Tags.Clone`, `copy` and `append` copy Tag structs, so two features can hold the SAME list (a path's points)
+— deliberately outside `Sep`.  That is safe for one reason only: nothing writes into an existing list;
+`b6.Set` (the only writer, used by `ModifyOrAddTagAt`) always allocates. -/
+
+/-- **`set_allocates_fresh`**: `b6.Set(s, e, i)` returns a list over a NEWLY allocated array — also when
+`i == len(s)` and the old array has spare capacity — holding the old elements with position `i` set, and
+leaves every existing list untouched. -/
+theorem set_allocates_fresh (vals : Vals) (es : List String) (i : Nat) (e : String) :
+    (setList vals es i e).2.addr = vals.length ∧
+    (∀ a, a < vals.length → (setList vals es i e).1[a]? = vals[a]?) ∧
+    (∃ arr, (setList vals es i e).1 = vals ++ [arr]) ∧
+    resolveV (setList vals es i e).1 (setList vals es i e).2
+      = some ((es ++ List.replicate (i + 1 - es.length) "").set i e) := by
+  refine ⟨rfl, fun a ha => by simp [setList, List.getElem?_append_left ha], ⟨_, rfl⟩, ?_⟩
+  simp only [setList, resolveV, List.getElem?_concat_length, Nat.le_refl, ↓reduceIte, Option.some.injEq]
+  exact List.take_of_length_le (Nat.le_refl _)
+
+example : resolveV (setList [["n1", "n2", "", ""]] ["n1", "n2"] 2 "n3").1
+    (setList [["n1", "n2", "", ""]] ["n1", "n2"] 2 "n3").2 = some ["n1", "n2", "n3"] := by decide
+
+theorem mutateV_vals {st st' : Store} {vals vals' : Vals} {f f' : Feat} {m : MutV}
+    (h : mutateV st vals f m = some (st', vals', f')) : ∃ ext, vals' = vals ++ ext := by
+  cases m with
+  | setTagAt k i e =>
+    simp only [mutateV, Option.map_eq_some_iff] at h
+    obtain ⟨r, hr, he⟩ := h
+    cases he
+    unfold tagsSetAt at hr
+    cases hc : cells st f.tags with
+    | none => rw [hc] at hr; cases hr
+    | some cs =>
+      rw [hc] at hr
+      simp only at hr
+      split at hr
+      · split at hr
+        · cases hr
+        · simp only [Option.map_eq_some_iff] at hr
+          obtain ⟨st2, _, he⟩ := hr
+          cases he
+          exact ⟨_, rfl⟩
+      · simp only [Option.map_eq_some_iff] at hr
+        obtain ⟨a, _, he⟩ := hr
+        cases he
+        exact ⟨_, rfl⟩
+  | setTagList k lit spare =>
+    simp only [mutateV, Option.map_eq_some_iff] at h
+    obtain ⟨r, hr, he⟩ := h
+    cases he
+    unfold tagsSetList at hr
+    simp only at hr
+    cases hc : cells st f.tags with
+    | none => rw [hc] at hr; cases hr
+    | some cs =>
+      rw [hc] at hr
+      simp only at hr
+      split at hr
+      · simp only [Option.map_eq_some_iff] at hr
+        obtain ⟨st2, _, he⟩ := hr
+        cases he
+        exact ⟨_, rfl⟩
+      · simp only [Option.map_eq_some_iff] at hr
+        obtain ⟨a, _, he⟩ := hr
+        cases he
+        exact ⟨_, rfl⟩
+
+/-- **the value store is append-only**: no operation of any kind writes into an existing list -/
+theorem vals_append_only {s s' : State} {op : Op} (h : step s op = some s') :
+    ∃ ext, s'.vals = s.vals ++ ext := by
+  cases op with
+  | updV i m =>
+    simp only [step] at h
+    cases hf : s.vars[i]? with
+    | none => rw [hf] at h; cases h
+    | some f =>
+      rw [hf] at h
+      simp only [Option.map_eq_some_iff] at h
+      obtain ⟨r, hr, he⟩ := h
+      subst he
+      exact mutateV_vals (st' := r.1) (vals' := r.2.1) (f' := r.2.2) hr
+  | new kind id n =>
+    simp only [step, Option.some.injEq] at h
+    subst h
+    exact ⟨[], by simp⟩
+  | clone i =>
+    simp only [step] at h
+    split at h
+    · cases h
+    · simp only [Option.map_eq_some_iff] at h
+      obtain ⟨r, _, he⟩ := h
+      subst he
+      exact ⟨[], by simp⟩
+  | upd i m =>
+    simp only [step] at h
+    split at h
+    · cases h
+    · simp only [Option.map_eq_some_iff] at h
+      obtain ⟨r, _, he⟩ := h
+      subst he
+      exact ⟨[], by simp⟩
+  | merge i j =>
+    simp only [step] at h
+    split at h
+    · split at h
+      · cases h
+      · simp only [Option.map_eq_some_iff] at h
+        obtain ⟨r, _, he⟩ := h
+        subst he
+        exact ⟨[], by simp⟩
+    · cases h
+  | add i =>
+    simp only [step] at h
+    split at h
+    · cases h
+    · split at h
+      · split at h
+        · cases h
+        · simp only [Option.map_eq_some_iff] at h
+          obtain ⟨r, _, he⟩ := h
+          subst he
+          exact ⟨[], by simp⟩
+      · simp only [Option.map_eq_some_iff] at h
+        obtain ⟨r, _, he⟩ := h
+        subst he
+        exact ⟨[], by simp⟩
+  | wtag kind id k v =>
+    simp only [step] at h
+    split at h
+    · cases h
+    · split at h
+      · cases h
+      · simp only [Option.map_eq_some_iff] at h
+        obtain ⟨r, _, he⟩ := h
+        subst he
+        exact ⟨[], by simp⟩
+  | wrm kind id k =>
+    simp only [step] at h
+    split at h
+    · cases h
+    · split at h
+      · cases h
+      · simp only [Option.map_eq_some_iff] at h
+        obtain ⟨r, _, he⟩ := h
+        subst he
+        exact ⟨[], by simp⟩
+  | fromWorld kind id =>
+    simp only [step] at h
+    split at h
+    · cases h
+    · split at h
+      · cases h
+      · simp only [Option.map_eq_some_iff] at h
+        obtain ⟨r, _, he⟩ := h
+        subst he
+        exact ⟨[], by simp⟩
+
+theorem resolveV_append {vals ext : Vals} {h : Slice} {xs : List String}
+    (hr : resolveV vals h = some xs) : resolveV (vals ++ ext) h = some xs := by
+  unfold resolveV at hr ⊢
+  cases ha : vals[h.addr]? with
+  | none => rw [ha] at hr; cases hr
+  | some arr =>
+    have hlt : h.addr < vals.length := by
+      rcases Nat.lt_or_ge h.addr vals.length with h' | h'
+      · exact h'
+      · rw [List.getElem?_eq_none h'] at ha; cases ha
+    rw [List.getElem?_append_left hlt, ha]
+    rw [ha] at hr
+    exact hr
+
+/-- the lists behind the list-valued tags of a tag array, in order -/
+def obsLists (vals : Vals) : List Cell → Option (List (List String))
+  | [] => some []
+  | .ltag _ h :: rest =>
+    match resolveV vals h, obsLists vals rest with
+    | some xs, some r => some (xs :: r)
+    | _, _ => none
+  | .pair _ _ :: rest => obsLists vals rest
+  | .scalar _ :: rest => obsLists vals rest
+
+/-- everything that can be observed of a feature: its slices AND the lists its tags' values point to -/
+def obs (st : Store) (vals : Vals) (f : Feat) : Option (View × List (List String)) :=
+  match view st f with
+  | none => none
+  | some v => (obsLists vals v.tags).map fun l => (v, l)
+
+theorem obsLists_append {vals ext : Vals} {cs : List Cell} {l : List (List String)}
+    (h : obsLists vals cs = some l) : obsLists (vals ++ ext) cs = some l := by
+  induction cs generalizing l with
+  | nil => exact h
+  | cons c rest ih =>
+    cases c with
+    | pair a b => exact ih h
+    | scalar x => exact ih h
+    | ltag k hd =>
+      simp only [obsLists] at h ⊢
+      cases hr : resolveV vals hd with
+      | none => rw [hr] at h; simp at h
+      | some xs =>
+        cases hl : obsLists vals rest with
+        | none => rw [hr, hl] at h; simp at h
+        | some r =>
+          rw [hr, hl] at h
+          rw [resolveV_append hr, ih hl]
+          exact h
+
+/-- **isolation down to the list values**: an operation changes what is observed — the lists behind the
+tags included — of its target only; in particular extending or overwriting a path's points through one
+holder (`ModifyOrAddTagAt`) never shows in a clone, a copy taken from the world, or the world. -/
+theorem step_isolates_values {s s' : State} {op : Op} (hs : Sep s) (h : step s op = some s') :
+    (∀ w x o, target s op ≠ .world w → s.world[w]? = some x → obs s.st s.vals x = some o →
+      s'.world[w]? = some x ∧ obs s'.st s'.vals x = some o) ∧
+    (∀ i x o, target s op ≠ .var i → s.vars[i]? = some x → obs s.st s.vals x = some o →
+      s'.vars[i]? = some x ∧ obs s'.st s'.vals x = some o) := by
+  obtain ⟨_, hw, hv⟩ := step_ok hs h
+  obtain ⟨ext, hext⟩ := vals_append_only h
+  have key : ∀ x o, view s'.st x = view s.st x → obs s.st s.vals x = some o → obs s'.st s'.vals x = some o := by
+    intro x o hview ho
+    unfold obs at ho ⊢
+    rw [hview]
+    cases hvw : view s.st x with
+    | none => rw [hvw] at ho; cases ho
+    | some v =>
+      rw [hvw] at ho
+      simp only [Option.map_eq_some_iff] at ho ⊢
+      obtain ⟨l, hl, he⟩ := ho
+      exact ⟨l, by rw [hext]; exact obsLists_append hl, he⟩
+  exact ⟨fun w x o ht hx ho => ⟨(hw w x ht hx).1, key x o (hw w x ht hx).2 ho⟩,
+    fun i x o ht hx ho => ⟨(hv i x ht hx).1, key x o (hv i x ht hx).2 ho⟩⟩
+
+/-- non-vacuity: a path built point by point, stored, cloned; original and clone both extended at the same
+index and overwritten: each keeps its own points, the world keeps the stored ones -/
+example : ∃ s, run {} [.new .generic "20" 0, .updV 0 (.setTagAt "path" 0 "n101"),
+      .updV 0 (.setTagAt "path" 1 "n102"), .add 0, .clone 0, .updV 0 (.setTagAt "path" 2 "n103"),
+      .updV 1 (.setTagAt "path" 2 "n104"), .updV 1 (.setTagAt "path" 0 "n105")] = some s ∧
+    (s.vars.map (obs s.st s.vals)).map (Option.map (·.2)) =
+      [some [["n101", "n102", "n103"]], some [["n105", "n102", "n104"]]] ∧
+    (s.world.map (obs s.st s.vals)).map (Option.map (·.2)) = [some [["n101", "n102"]]] := by
+  refine ⟨_, rfl, by decide, by decide⟩
 
 /-! ## `MergeFrom` gives the receiver the value of its argument -/
 
